@@ -85,5 +85,16 @@ func (cs *ConsensusState) VerifStopWAL() {
 	}
 }
 
+// VerifSaveOnly writes the WAL record of a message without handling it: the state of a process
+// killed between the two halves of a receiveRoutine iteration.
+func (cs *ConsensusState) VerifSaveOnly(msg ConsensusMessage, peerKey string) {
+	cs.wal.Save(msgInfo{msg, peerKey})
+}
+
+// VerifSaveTimeoutOnly is VerifSaveOnly for a fired timeout.
+func (cs *ConsensusState) VerifSaveTimeoutOnly(height, round int64, step RoundStepType) {
+	cs.wal.Save(timeoutInfo{0, height, round, step})
+}
+
 // VerifSetSkipTimeoutCommit sets the "skip timeout commit" parameter.
 func (cs *ConsensusState) VerifSetSkipTimeoutCommit(b bool) { cs.timeoutParams.SkipTimeoutCommit = b }
